@@ -53,15 +53,17 @@ type c32Size struct {
 }
 
 type c32Op struct {
-	Kind string  `json:"op"` // send | wait | close
+	Kind string  `json:"op"` // send | wait | close | drain
 	Size c32Size `json:"size,omitempty"`
+	N    int     `json:"n,omitempty"` // drain: take up to N batches from Queue, 0 = all that are there
 }
 
 type c32Case struct {
 	Max     int     `json:"max"`
 	Cap     int     `json:"cap"`
-	TimerMs int     `json:"timer_ms"` // 1 (fires during the case) or 3_600_000 (never fires)
-	Drain   bool    `json:"drain"`    // the consumer empties the queue after every op / never before the end
+	TimerMs int     `json:"timer_ms"`         // 1 (fires during the case) or 3_600_000 (never fires)
+	Drain   bool    `json:"drain"`            // the consumer empties the queue after every op / never before the end
+	Manual  bool    `json:"manual,omitempty"` // the consumer reads only at the generated `drain` ops (Drain is ignored)
 	Ops     []c32Op `json:"ops"`
 }
 
@@ -171,7 +173,7 @@ type c32CountLog struct {
 }
 
 func (c *c32CountLog) Debug(msg string, _ ...zap.Field) {
-	if msg == "dropped pending message" {
+	if msg == "dropped pending message" || strings.HasPrefix(msg, "unable to flush") {
 		c.drops.Add(1)
 	}
 }
@@ -231,6 +233,9 @@ func c32Run(c c32Case, st *vstat.Stats) error {
 		lblAfterClose     bool
 		lblAtLimit        bool
 		waits             int
+		fullBeforeOp      bool // Queue was seen full right before a send/close (a flush inside it may drop)
+		lblDrainedFull    bool // a drain op emptied (part of) a full queue while the buffer was open
+		lblFailedFlushGap bool // ... and a flush had already hit the full queue before that drain
 	)
 	checkBatch := func(b []byte) error {
 		nBatches++
@@ -275,6 +280,9 @@ func c32Run(c c32Case, st *vstat.Stats) error {
 	estRaw, estEnc := 0, 0 // generator-side estimates of the pending fill (timer ignored)
 	sendIdx := 0
 	for oi, op := range c.Ops {
+		if (op.Kind == "send" || op.Kind == "close") && !closed && len(mb.Queue) >= c.Cap {
+			fullBeforeOp = true
+		}
 		switch op.Kind {
 		case "send":
 			var size int
@@ -335,6 +343,35 @@ func c32Run(c c32Case, st *vstat.Stats) error {
 				}
 				estEnc += enc
 			}
+		case "drain":
+			if !c.Manual {
+				st.Skip("drain-op-in-fixed-consumer-mode")
+				continue
+			}
+			wasFull := len(mb.Queue) == c.Cap
+			took := 0
+			for !queueClosed && (op.N <= 0 || took < op.N) {
+				select {
+				case b, ok := <-mb.Queue:
+					if !ok {
+						queueClosed = true
+						break
+					}
+					took++
+					if err := checkBatch(b); err != nil {
+						return err
+					}
+					continue
+				default:
+				}
+				break
+			}
+			if wasFull && took > 0 && !closed {
+				lblDrainedFull = true
+				if log.drops.Load() > 0 {
+					lblFailedFlushGap = true
+				}
+			}
 		case "wait":
 			if c.TimerMs != c32Hour && waits < 3 {
 				waits++
@@ -354,13 +391,16 @@ func c32Run(c c32Case, st *vstat.Stats) error {
 		default:
 			return fmt.Errorf("unknown op %q", op.Kind)
 		}
-		if c.Drain {
+		if c.Drain && !c.Manual {
 			if err := collect(); err != nil {
 				return err
 			}
 		}
 	}
 	if !closed {
+		if len(mb.Queue) >= c.Cap {
+			fullBeforeOp = true
+		}
 		err, hung, deadlock, ev := c32Close(mb, c32CloseWait)
 		closed = true
 		if hung {
@@ -388,8 +428,16 @@ func c32Run(c c32Case, st *vstat.Stats) error {
 	}
 
 	strict := false
-	if c.Drain {
+	if c.Manual {
+		// drops are legitimate whenever a flush meets a full queue. None is possible if
+		// the queue has room for every batch, or if the timer cannot fire (every flush
+		// then happens inside a Send/Close) and the queue was never full before one
+		strict = c.Cap >= len(accepted)+1 || (c.TimerMs == c32Hour && !fullBeforeOp)
+	}
+	if c.Drain && !c.Manual {
 		strict = c.TimerMs == c32Hour || c.Cap >= len(accepted)+1
+	}
+	if c.Manual || c.Drain {
 		if strict {
 			if len(emitted) != len(accepted) {
 				return fmt.Errorf("no drop possible, accepted %d messages (sizes %v) but %d were emitted (sizes %v)", len(accepted), c32Lens(accepted), len(emitted), c32Lens(emitted))
@@ -431,8 +479,11 @@ func c32Run(c c32Case, st *vstat.Stats) error {
 	}
 	add(nearLimit, "batch-near-limit")
 	add(maxBatch == c.Max, "batch-exactly-at-limit")
-	add(c.Drain, "consumer-drains")
-	add(!c.Drain, "consumer-never-reads")
+	add(c.Drain && !c.Manual, "consumer-drains")
+	add(!c.Drain && !c.Manual, "consumer-never-reads")
+	add(c.Manual, "consumer-drain-ops")
+	add(lblDrainedFull, "full-queue-drained-then-flush")
+	add(lblFailedFlushGap, "flush-hit-full-queue-then-drain-then-flush")
 	add(c.TimerMs != c32Hour, "timer-live")
 	add(strict, "exactly-once-demanded")
 	add(log.drops.Load() > 0, "drop-logged")
@@ -442,11 +493,39 @@ func c32Run(c c32Case, st *vstat.Stats) error {
 	add(lblAtLimit, "send-exactly-max")
 	add(lblAfterClose, "send-after-close")
 	add(waits > 0, "waited-for-timer")
-	canon, _ := json.Marshal(map[string]any{"max": c.Max, "cap": c.Cap, "t": c.TimerMs, "d": c.Drain, "sizes": resolved, "ops": len(c.Ops)})
+	canon, _ := json.Marshal(map[string]any{"max": c.Max, "cap": c.Cap, "t": c.TimerMs, "d": c.Drain, "m": c.Manual, "sizes": resolved, "ops": c32OpString(c.Ops)})
 	st.Case(nt, string(canon), labels...)
-	st.Sample(nt, map[string]any{"max": c.Max, "cap": c.Cap, "timer_ms": c.TimerMs, "drain": c.Drain, "sizes": resolved,
+	st.Sample(nt, map[string]any{"max": c.Max, "cap": c.Cap, "timer_ms": c.TimerMs, "drain": c.Drain, "manual": c.Manual, "ops": c32OpString(c.Ops), "sizes": resolved,
 		"accepted": len(accepted), "emitted": len(emitted), "batches": nBatches, "largest_batch": maxBatch})
 	return nil
+}
+
+// c32OpString renders the op kinds compactly: s(end) w(ait) c(lose) d<n>(rain).
+func c32OpString(ops []c32Op) string {
+	var b strings.Builder
+	for _, op := range ops {
+		switch op.Kind {
+		case "drain":
+			fmt.Fprintf(&b, "d%d", op.N)
+		default:
+			b.WriteByte(op.Kind[0])
+		}
+	}
+	return b.String()
+}
+
+// c32GenBigSize: sizes that make (almost) every Send overflow the pending batch.
+func c32GenBigSize(rt *rapid.T, max int) c32Size {
+	switch rapid.IntRange(0, 9).Draw(rt, "bigSizeKind") {
+	case 0, 1, 2, 3:
+		return c32Size{"lim", rapid.IntRange(-6, 0).Draw(rt, "limK")}
+	case 4, 5:
+		return c32Size{"fill", rapid.IntRange(-1, 2).Draw(rt, "fillK")}
+	case 6, 7:
+		return c32Size{"fille", rapid.IntRange(-1, 2).Draw(rt, "filleK")}
+	default:
+		return c32GenSize(rt, max)
+	}
 }
 
 func c32GenSize(rt *rapid.T, max int) c32Size {
@@ -472,13 +551,21 @@ func c32Gen(rt *rapid.T) c32Case {
 		rapid.SampledFrom([]int{16, 17, 100, 127, 128, 129, 130, 131, 255, 256, 4096}),
 		rapid.IntRange(16, 4096),
 	).Draw(rt, "max")
-	c.Drain = rapid.Bool().Draw(rt, "drain")
+	switch rapid.IntRange(0, 2).Draw(rt, "consumer") {
+	case 0:
+		c.Drain = true
+	case 1:
+		c.Manual = true
+	}
 	if rapid.Bool().Draw(rt, "timerLive") {
 		c.TimerMs = 1
 	} else {
 		c.TimerMs = c32Hour
 	}
 	nOps := rapid.IntRange(1, 14).Draw(rt, "nOps")
+	if c.Manual {
+		nOps = rapid.IntRange(3, 20).Draw(rt, "nOpsManual")
+	}
 	closeAt := -1
 	if rapid.IntRange(0, 2).Draw(rt, "closeEarly") == 0 {
 		closeAt = rapid.IntRange(0, nOps).Draw(rt, "closeAt")
@@ -487,6 +574,18 @@ func c32Gen(rt *rapid.T) c32Case {
 	for i := 0; i < nOps; i++ {
 		if i == closeAt {
 			c.Ops = append(c.Ops, c32Op{Kind: "close"})
+		}
+		if c.Manual {
+			switch k := rapid.IntRange(0, 19).Draw(rt, "opKindManual"); {
+			case k == 0:
+				c.Ops = append(c.Ops, c32Op{Kind: "wait"})
+			case k <= 4:
+				c.Ops = append(c.Ops, c32Op{Kind: "drain", N: rapid.SampledFrom([]int{0, 0, 1, 1, 2}).Draw(rt, "drainN")})
+			default:
+				c.Ops = append(c.Ops, c32Op{Kind: "send", Size: c32GenBigSize(rt, c.Max)})
+				sends++
+			}
+			continue
 		}
 		switch rapid.IntRange(0, 11).Draw(rt, "opKind") {
 		case 0:
@@ -502,7 +601,9 @@ func c32Gen(rt *rapid.T) c32Case {
 			sends++
 		}
 	}
-	if rapid.IntRange(0, 3).Draw(rt, "capBig") == 0 {
+	if c.Manual {
+		c.Cap = rapid.SampledFrom([]int{1, 1, 2, 2, 3, 8}).Draw(rt, "capManual")
+	} else if rapid.IntRange(0, 3).Draw(rt, "capBig") == 0 {
 		c.Cap = sends + 1
 	} else {
 		c.Cap = rapid.IntRange(1, 8).Draw(rt, "cap")
@@ -510,12 +611,12 @@ func c32Gen(rt *rapid.T) c32Case {
 	return c
 }
 
-const c32Rule = "op lists (1..14 of send(size) / wait 3 ms / close, close always last) against pubsub.MessageBuffer with maximum 16..4096, queue capacity 1..8 or sends+1, a real flush timer of 1 ms or 1 h, a consumer that empties Queue after every op or never before the end; sizes are 0,1,small, max-4..max+2, sizes that exactly fill / overfill the pending batch by raw length and by encoded length; oracle: each batch <= max bytes and parses, emitted = accepted (no drop possible) / prefix (never read) / subsequence (otherwise), Send after Close and of len > max fails, Send of a message whose batch entry fits succeeds; non-trivial = some emitted batch carries raw payload >= max-8; distinct by parameters and resolved sizes"
+const c32Rule = "op lists (1..14 of send(size) / wait 3 ms / close, close always last) against pubsub.MessageBuffer with maximum 16..4096, queue capacity 1..8 or sends+1, a real flush timer of 1 ms or 1 h, a consumer that empties Queue after every op, never before the end, or at generated `drain k` / `drain all` ops (then capacity 1..3 or 8, 3..20 ops, mostly batch-overflowing sizes); sizes are 0,1,small, max-4..max+2, sizes that exactly fill / overfill the pending batch by raw length and by encoded length; oracle: each batch <= max bytes and parses, emitted = accepted (no drop possible) / prefix (never read) / in-order duplicate-free subsequence (otherwise), Send after Close and of len > max fails, Send of a message whose batch entry fits succeeds; non-trivial = some emitted batch carries raw payload >= max-8; distinct by parameters and resolved sizes"
 
 func TestC32(t *testing.T) {
 	st := vstat.New(t, "C32", c32Rule)
 	st.Assumption("a message 'accepted for sending' is one for which Send returned nil; Send calls are made from one goroutine in this stage (concurrent senders are covered by TestC32Conc)")
-	st.Assumption("a drop is permitted only when Queue is full: with a consumer that never reads, fewer than `cap` batches at the end means nothing was dropped; with a consumer that empties Queue after every op, no drop is possible if the timer cannot fire or if cap >= accepted+1")
+	st.Assumption("a drop is permitted only when Queue is full: with a consumer that never reads, fewer than `cap` batches at the end means nothing was dropped; with a consumer that empties Queue after every op, no drop is possible if the timer cannot fire or if cap >= accepted+1; with generated drain ops, no drop is possible if cap >= accepted+1, or if the timer cannot fire and Queue was never full right before a Send/Close (one flush per Send/Close)")
 	rapid.Check(t, func(rt *rapid.T) {
 		c := c32Gen(rt)
 		inconclusive := false
